@@ -618,7 +618,7 @@ Definition rm_tail (s : ld) (k : K) (its1 : list K) (pos1 : K -> option nat) : r
     | None => Err KeyErr
     | Some w =>
       let wt1 := fupd (wt s) k None in
-      let tot := total s - w in
+      let tot := match its1 with [] => 0 | _ => total s - w end in
       if Qeqb w (maxw s) then
         let mc := (maxc s - 1)%Z in
         if Z.eqb mc 0 && negb (Nat.eqb (length its1) 0) then
@@ -755,13 +755,13 @@ Proof.
   - (* weighted *)
     destruct (wt s k) as [w|] eqn:Hwk.
     2:{ exfalso. apply (inv_dom s Hinv Hw k) in Hin. contradiction. }
-    assert (G : forall m c,
+    assert (G : forall m c t, t == total s - w ->
       (forall x v, fupd (wt s) k None x = Some v -> v <= m) ->
-      ld_inv (mkLD true its1 pos1 (fupd (wt s) k None) m c (total s - w)) /\
+      ld_inv (mkLD true its1 pos1 (fupd (wt s) k None) m c t) /\
       true = true /\
-      forall x, abs (mkLD true its1 pos1 (fupd (wt s) k None) m c (total s - w)) x
+      forall x, abs (mkLD true its1 pos1 (fupd (wt s) k None) m c t) x
                 = sp_remove (abs s) k x).
-    { intros m c Hm. split; [|split; [reflexivity|]].
+    { intros m c t Ht Hm. split; [|split; [reflexivity|]].
       - constructor; cbn [items pos wt weighted maxw total].
         + exact Hnd1.
         + exact Hpos1.
@@ -775,7 +775,7 @@ Proof.
           * intro H. discriminate H.
           * apply (inv_nonneg s Hinv Hw).
         + intros _. exact Hm.
-        + intros _.
+        + intros _. transitivity (total s - w); [exact Ht|].
           rewrite (sumQ_map_ext_in K _ (wread s) its1).
           * rewrite (inv_total s Hinv Hw).
             rewrite <- (sumQ_map_perm K (wread s) _ _ Hperm). cbn [map].
@@ -789,11 +789,15 @@ Proof.
     { intros x v. unfold ListDict.fupd. destruct (Keqb x k).
       - intro H. discriminate H.
       - apply (inv_max s Hinv Hw). }
+    assert (Htot : match its1 with [] => 0 | _ => total s - w end == total s - w).
+    { destruct its1 as [|y its1']; [|reflexivity].
+      rewrite (inv_total s Hinv Hw). rewrite <- (sumQ_map_perm K (wread s) _ _ Hperm). cbn [map].
+      rewrite sumQ_cons. unfold ListDict.wread at 1. rewrite Hwk. cbn [map sumQ fold_right]. ring. }
     cbv zeta.
     destruct (Qeqb w (maxw s)).
     + destruct ((maxc s - 1 =? 0)%Z && negb (Nat.eqb (length its1) 0)).
       * unfold recompute_max. cbv zeta.
-        eexists. split; [reflexivity|]. apply G.
+        eexists. split; [reflexivity|]. apply G; [exact Htot|].
         intros x v Hv.
         assert (Hx : In x its1).
         { apply Hmem. revert Hv. unfold ListDict.fupd.
@@ -801,8 +805,8 @@ Proof.
           split; [|exact E]. apply (inv_dom s Hinv Hw x). congruence. }
         apply list_max_ub. apply in_map_iff. exists x. split; [|exact Hx].
         rewrite Hv. reflexivity.
-      * eexists. split; [reflexivity|]. apply G. exact Hold.
-    + eexists. split; [reflexivity|]. apply G. exact Hold.
+      * eexists. split; [reflexivity|]. apply G; [exact Htot|exact Hold].
+    + eexists. split; [reflexivity|]. apply G; [exact Htot|exact Hold].
   - (* unweighted *)
     eexists. split; [reflexivity|]. split; [|split; [reflexivity|]].
     + constructor; cbn [items pos wt weighted maxw total];
